@@ -273,6 +273,15 @@ def comp_text_with_stream_length(target):
     return t
 
 
+def comp_text_with_stream_between(lo, hi):
+    """First text (by construction order) whose compressed stream length lies in [lo, hi]."""
+    for target in range(hi, lo - 1, -1):
+        t = comp_text_with_stream_length(target)
+        if t is not None:
+            return t
+    return None
+
+
 def capacity_cases(tier):
     """(tag, builder) pairs; builders are run in the shard (they are expensive)."""
     deltas = (-1, 0, 1) if tier == 'quick' else (-2, -1, 0, 1, 2)
